@@ -38,9 +38,9 @@ def jobs(tier):
                           tier="quick" if ((ft == 12 or k in ("ND_LT", "ND_EQ", "ND_ADD", "ND_NOT")) and k not in ("ND_MUL", "ND_DIV")) else "thorough",
                           sample=f"gen_expr({k}) on {TI[ft]} operands, all bit patterns", **CG))
     for k in ("ND_EQ", "ND_NE", "ND_LT", "ND_LE", "ND_NOT", "ND_ADD", "ND_SUB", "ND_MUL", "ND_DIV"):
-        js.append(Job(name=f"fopl-{k}", src="../C01/fopl.c", group="C02.2 x87 comparison and arithmetic", defs={"KIND": k}, tier="quick" if k in ("ND_EQ", "ND_NE", "ND_LT", "ND_SUB", "ND_DIV") else "thorough",
+        js.append(Job(name=f"fopl-{k}", src="../C01/fopl.c", group="C02.2 x87 comparison and arithmetic", defs={"KIND": k}, tier="quick" if k in ("ND_EQ", "ND_NE", "ND_LT", "ND_SUB") else "thorough",   # the exact-division job needs ~6 min: thorough tier
                       bounded=("8-bit operand magnitudes" if k in ("ND_MUL", "ND_DIV") else None),
-                      sample=f"gen_expr({k}) on long double operands: every integral value or a NaN", **CG))
+                      sample=f"gen_expr({k}) on long double operands: every integral value or a NaN", **dict(CG, timeout=900)))
     for k in ("ND_ADD", "ND_SUB", "ND_MUL", "ND_DIV", "ND_EQ", "ND_LT", "ND_COND"):
         js.append(Job(name=f"typingf-{k}", src="../C01/typing.c", group="C02.6 floating rank", defs={"KIND": k, "TMAX": "12"}, units=["parse.c"], mode="plain",
                       cut=["error", "error_tok", "error_at", "warn_tok"], timeout=180, sample=f"add_type({k}) with at least one floating operand, every type pair"))
